@@ -18,8 +18,9 @@ from lib.common import MachineryError, classify_mismatches, log
 PKG_HS = "./p2p/http/auth/internal/handshake"
 PKG_AUTH = "./p2p/http/auth"
 
-INV = "INVARIANTS TypeOK TokensProven ClientReports KindsSeparate"
-PROPS = "PROPERTIES ServerReports BearerReports Integrity ClientOpReports"
+INV = "INVARIANTS TypeOK TokensProven ClientReports KindsSeparate CacheProven"
+PROPS = "PROPERTIES ServerReports BearerReports Integrity ClientOpReports TokReports"
+STATE_PROPS = ("ReachClientDoneS", "ReachTokReport")
 
 
 def _fast_unescape(s, _slow=tlc._unescape):
@@ -30,11 +31,26 @@ tlc._unescape = _fast_unescape
 
 
 def inst(name, maxt, mint, tok, cli, explicit, verifiers="MCVerifiersS", samekey=True, rich=False,
-         places="MCPlaces3", chalttl=1, tokttl=1):
+         places="MCPlaces3", chalttl=1, tokttl=1, alias=False, seq=False, stale=True, careless=False):
+    t = lambda b: "TRUE" if b else "FALSE"
     return name, {"MaxT": maxt, "ChalTTL": chalttl, "TokTTL": tokttl, "MaxMint": mint, "MaxTok": tok, "MaxCli": cli,
-                  "S2SameKey": "TRUE" if samekey else "FALSE", "Explicit": "TRUE" if explicit else "FALSE",
-                  "Rich": "TRUE" if rich else "FALSE"}, [("Verifiers <- MCVerifiersS", "Verifiers <- " + verifiers),
-                                                         ("MintPlaces <- MCPlaces3", "MintPlaces <- " + places)]
+                  "S2SameKey": t(samekey), "Explicit": t(explicit), "Rich": t(rich), "SeqSessions": t(seq),
+                  "StaleStart": t(stale), "Careless": t(careless)}, [
+        ("Verifiers <- MCVerifiersS", "Verifiers <- " + verifiers),
+        ("MintPlaces <- MCPlaces3", "MintPlaces <- " + places),
+        ("AliasHosts <- MCNoAlias", "AliasHosts <- " + ("MCAlias" if alias else "MCNoAlias")),
+        ("CliHosts <- MCCliAll", "CliHosts <- " + ("MCCliAlias" if alias else "MCCliAll"))]
+
+
+def host_inst(name, mint, places="MCPlacesAlias", **kw):
+    """one client, exchanges one after the other with h1 and its alias h1a: the token cache"""
+    return inst(name, 0, mint, 2, 2, True, verifiers="MCVerifiersNone", samekey=False, places=places, alias=True, seq=True,
+                stale=False, **kw)
+
+
+def time_inst(name, chalttl, tokttl, maxt):
+    """one challenge and its tokens aged across both lifetimes"""
+    return inst(name, maxt, 1, 2, 0, False, places="MCPlaces1", chalttl=chalttl, tokttl=tokttl)
 
 
 def mc_instances(ctx):
@@ -67,6 +83,10 @@ def edge_instances(ctx):
         inst("srv-r", 2, 2, 1, 0, False),
         inst("cli-r", 0, 1, 2, 1, True, verifiers="MCVerifiersNone", samekey=False),
         inst("mix-r", 0, 1, 1, 1, True, places="MCPlacesS"),
+        # lifetimes: TokenTTL <, =, > challenge lifetime (in ticks); the clock crosses every boundary
+        time_inst("time12-r", 1, 2, 4), time_inst("time21-r", 2, 1, 4), time_inst("time13-r", 1, 3, 5),
+        # the client's token cache and the alias hostname
+        host_inst("host-r", 0),
     ]
     if ctx.tier == "thorough":
         out += [
@@ -75,6 +95,9 @@ def edge_instances(ctx):
             inst("srvboth-t", 2, 2, 1, 0, False, verifiers="MCVerifiersBoth", samekey=False, places="MCPlaces4"),
             inst("cli-t", 0, 1, 2, 1, True, verifiers="MCVerifiersNone", samekey=False, rich=True),
             inst("mix-t", 1, 1, 1, 1, True, places="MCPlacesS", samekey=False),
+            time_inst("time31-t", 3, 1, 5), time_inst("time22-t", 2, 2, 5),
+            host_inst("host1-t", 1, places="MCPlaces1"),
+            host_inst("host-t", 1),
         ]
     return out
 
@@ -91,8 +114,8 @@ def _mc(args):
 
 def _reach(args):
     ctx, prop, (name, consts, repl) = args
-    cfg = tlc.subst_cfg("C19_MC.cfg", consts, repl + [(INV, "INVARIANTS TypeOK" + (" " + prop if prop == "ReachClientDoneS" else "")),
-                                                       (PROPS, "" if prop == "ReachClientDoneS" else "PROPERTIES " + prop)])
+    cfg = tlc.subst_cfg("C19_MC.cfg", consts, repl + [(INV, "INVARIANTS TypeOK" + (" " + prop if prop in STATE_PROPS else "")),
+                                                       (PROPS, "" if prop in STATE_PROPS else "PROPERTIES " + prop)])
     r = tlc.run(ctx, "C19_MC", "gen_%s_%s.cfg" % (name, prop), cfg_text=cfg, workers=1, timeout=600,
                 name="reach" + name + prop, deadlock=False)
     if r.ok or r.violated != prop:
@@ -111,10 +134,14 @@ def edge_kind(op):
         if op.get("alt") != "none":
             return "%s/alt:%s" % (n, op["alt"])
         return "%s/%s%s" % (n, op["res"], ("/" + op["reports"]) if op["reports"] != "none" else "")
+    if n == "cstart" and op.get("mode") == "tok":
+        return "cstart/tok"
+    if n == "ctok":
+        return "ctok/" + op["status"]
     return n
 
 
-REQUIRED_KINDS = ["challenge", "sign", "tick", "cstart",
+REQUIRED_KINDS = ["challenge", "sign", "tick", "cstart", "cstart/tok", "ctok/200", "ctok/403", "ctok/500",
                   "verify/ok/kC", "verify/ok/kA", "verify/hmac", "verify/expired", "verify/kind", "verify/host",
                   "verify/nokey", "verify/sig", "verify/nochs",
                   "bearer/ok/kC", "bearer/ok/kA", "bearer/hmac", "bearer/kind", "bearer/expired",
@@ -165,7 +192,10 @@ def run(ctx):
     if ctx.tier == "thorough":
         reach = [("ReachServerReportsC", by["srv"]), ("ReachBearerC", by["srv"]), ("ReachExpiredTok", by["srv"]),
                  ("ReachExpiredChal", by["srv"]), ("ReachClientDoneS", by["cli12"]), ("ReachServerReportsC", by["mix"]),
-                 ("ReachClientDoneS", by["mix"])]
+                 ("ReachClientDoneS", by["mix"]),
+                 # the model can express the alias attack: with a carelessly keyed cache TokReports fails
+                 ("TokReports", host_inst("careless", 0, careless=True)),
+                 ("ReachTokReport", host_inst("hostreach", 0))]
     # at most four single-worker TLC processes at a time
     with cf.ProcessPoolExecutor(max_workers=4) as ex:
         f_ed = [ex.submit(_edges, (ctx, i, beh_dir)) for i in eds]
@@ -194,7 +224,7 @@ def run(ctx):
     # --- replay on the real code.  Handshake level: every walk, all key types in thorough (one process
     # per key profile: the clock and randomness are package variables).  Handler level: the small files.
     profiles = ["ed25519"]
-    small = [n for n in ("srv-r", "cli-r", "mix-r")]
+    small = [i[0] for i in edge_instances(ctx) if i[0].endswith("-r")]
     for n in small:
         os.link(os.path.join(beh_dir, n + ".jsonl"), os.path.join(beh_small, n + ".jsonl"))
     if ctx.tier == "thorough":
@@ -213,7 +243,8 @@ def run(ctx):
 
     def handler(_):
         return goenv.run_harness(sub_ctx("handler"), PKG_AUTH, "^TestVerifC19Handler$", inputs=beh_small,
-                                 env={"VERIF_C19_KEYS": "ed25519" if ctx.tier != "thorough" else "mixed"}, timeout=1500)
+                                 env={"VERIF_C19_KEYS": "ed25519" if ctx.tier != "thorough" else "mixed",
+                                      "VERIF_C19_MAXWALKS": "0" if ctx.tier == "thorough" else "6000"}, timeout=1500)
 
     with cf.ThreadPoolExecutor(max_workers=6) as ex:
         futs = [(p, ex.submit(hs, p)) for p in profiles]
@@ -224,6 +255,7 @@ def run(ctx):
     replayed = steps = distinct = 0
     extra = {}
     family = {}
+    dims = {"lifetime_configs_in_model_ticks(chal,tok)": [[1, 1], [1, 2], [2, 1], [1, 3]] + ([[3, 1], [2, 2]] if ctx.tier == "thorough" else [])}
     samples = []
     for p, res in results:
         div += classify_mismatches(ctx, res, "replay-" + p)
@@ -231,11 +263,15 @@ def run(ctx):
         steps += res["steps"]
         distinct = max(distinct, res["distinct"])
         for k, v in (res.get("extra") or {}).items():
-            if isinstance(v, int) and not k.startswith("secret_pair"):
+            if isinstance(v, int) and not k.startswith("secret_pair") and not k.startswith("hostname_pairs"):
                 extra[k] = extra.get(k, 0) + v
         for k in ("secret_pair_family", "secret_lengths", "secret_differences", "secret_pairs", "secret_pairs_hmac_equivalent"):
             if k in (res.get("extra") or {}):
                 family[k] = res["extra"][k]
+        for k in ("token_ttls", "hostname_pair_family", "client_host_matrix_responders"):
+            if k in (res.get("extra") or {}):
+                dims[k] = res["extra"][k]
+        dims.setdefault("hostname_pairs_used_in_replay", {})[p] = (res.get("extra") or {}).get("hostname_pairs_used_in_replay")
         family.setdefault("secret_pairs_used_in_replay", {})[p] = (res.get("extra") or {}).get("secret_pairs_used_in_replay")
         samples += (res.get("samples") or [])[:1]
         log("C19 replay %-9s walks=%d steps=%d mismatches=%d extra=%s" % (p, res["replayed"], res["steps"], len(res["mismatches"]),
@@ -256,7 +292,8 @@ def run(ctx):
     r0 = dict(results)["ed25519"]
     if not r0["mismatches"] and r0["steps"] < steps_total:
         raise MachineryError("replay executed %d steps for %d walk steps" % (r0["steps"], steps_total))
-    for k in ("server_requests", "server_accepts", "altered_requests", "reencoded_requests", "client_deliveries", "secret_matrix_requests"):
+    for k in ("server_requests", "server_accepts", "altered_requests", "reencoded_requests", "client_deliveries", "secret_matrix_requests",
+              "time_matrix_requests", "host_matrix_requests", "client_host_matrix_cases"):
         if not extra.get(k):
             raise MachineryError("vacuous replay: counter %s is zero" % k)
     cov = evidence.mc_coverage(
@@ -264,7 +301,7 @@ def run(ctx):
         checker_cmd="tlc C19_MC.tla (template C19_MC.cfg; instances %s)" % ", ".join(i[0] for i in mcs + eds),
         instances=len(mcs) + len(eds), replay_instances=[i[0] for i in eds], replay_transitions_in_graphs=edges_total,
         replay_walks=walks_total, replay_steps_executed=steps, replay_distinct_classes=distinct,
-        key_profiles=profiles, edge_kinds=len(kinds), divergences_L2=div, divergence_classes=classes, notes=ctx.notes[:12], second_server_secrets=family,
+        key_profiles=profiles, edge_kinds=len(kinds), divergences_L2=div, divergence_classes=classes, notes=ctx.notes[:12], second_server_secrets=family, time_and_hostname_dimensions=dims,
         rule=r0.get("rule"), **extra)
     return {"level": "model_checking", "coverage": cov, "assumptions": [
         "symbolic cryptography: HMAC-SHA256, the four signature schemes of core/crypto, base64 and encoding/json are a trusted base; "
